@@ -158,6 +158,8 @@ impl Cache {
             let mut proc = collection.find(&task.pid)?;
             proc.end_time = p.end_time();
             proc.state = p.state().into();
+            proc.env = p.env().to_string();
+            proc.err = p.err().map(|err| err.to_string());
 
             collection.update(&proc)?;
             self.store.upsert_task(task)?;
